@@ -414,3 +414,164 @@ def _decided(cx, cond):
 
 def _is_star_path(cx, q):
     return _decided(cx, q.t == z3.StringVal("*")) is True
+
+
+# ------------------------------------------------------------------------------------------------ C05-S  (semantic step, per class)
+class SemLeaf(ET.JsonSerializableMixin):
+    """the translation of an arbitrary sub-tree whose meaning is an arbitrary truth value `val` (z3 Bool): the induction
+    hypothesis of the structural induction.  Accepts the attribute writes the builder performs on items."""
+
+    def __init__(self, val, tag):
+        self.val = val
+        self.tag = tag
+
+    @property
+    def json(self):
+        return {"__leaf__": self}
+
+
+def es_meaning(js):
+    """meaning of an ES bool query over abstract leaves, from the ES documentation: must / filter all match, no must_not matches,
+    and - when there is no must / filter clause - at least one should clause matches if there is any"""
+    (kind, body), = js.items()
+    if kind == "__leaf__":
+        return body.val
+    if kind != "bool":
+        raise EngineUnsupported("ES clause %r in a boolean skeleton" % kind)
+    extra = set(body) - {"must", "filter", "must_not", "should"}
+    if extra:
+        raise EngineUnsupported("bool options %s" % sorted(extra))
+    must = [es_meaning(c) for c in body.get("must", []) + body.get("filter", [])]
+    mnot = [es_meaning(c) for c in body.get("must_not", [])]
+    should = [es_meaning(c) for c in body.get("should", [])]
+    parts = list(must) + [z3.Not(x) for x in mnot]
+    if should and not must:
+        parts.append(z3.Or(should))
+    return z3.And(parts) if parts else z3.BoolVal(True)
+
+
+def _operand(kind, i, cx, top_cls):
+    """(node, stubs {id(node): E-item}, meaning) of one operand of the given kind; the stub is what the operand's own visit
+    returns by ITS contract (proved in its own case), its meaning is the induction hypothesis"""
+    def fresh(nm):
+        b = z3.Bool("%s%d" % (nm, i))
+        cx.register("%s%d" % (nm, i), b)
+        return b
+    if kind == "leaf":
+        n = T.Word("w%d" % i)
+        v = fresh("v")
+        return n, {id(n): SemLeaf(v, "w%d" % i)}, v
+    if kind == "group":
+        n = T.Group(T.Word("g%d" % i))
+        v = fresh("v")
+        return n, {id(n): SemLeaf(v, "g%d" % i)}, v
+    if kind in ("plus", "not", "prohibit"):
+        inner = T.Word("p%d" % i)
+        cls = {"plus": T.Plus, "not": T.Not, "prohibit": T.Prohibit}[kind]
+        n = cls(inner)
+        v = fresh("v")
+        leaf = SemLeaf(v, "p%d" % i)
+        item = ET.EMust(items=[leaf]) if kind == "plus" else ET.EMustNot(items=[leaf])
+        return n, {id(n): item}, (v if kind == "plus" else z3.Not(v))
+    if kind in ("and", "or"):
+        a, b = T.Word("a%d" % i), T.Word("b%d" % i)
+        cls = T.AndOperation if kind == "and" else T.OrOperation
+        n = cls(a, b)
+        va, vb = fresh("va"), fresh("vb")
+        la, lb = SemLeaf(va, "a%d" % i), SemLeaf(vb, "b%d" % i)
+        meaning = z3.And(va, vb) if kind == "and" else z3.Or(va, vb)
+        if cls is top_cls:
+            # flattened by simplify_if_same: its operands are visited in its place
+            return n, {id(a): la, id(b): lb}, meaning
+        item = (ET.EMust if kind == "and" else ET.EShould)(items=[la, lb])
+        return n, {id(n): item}, meaning
+    raise ValueError(kind)
+
+
+def semantic_cases():
+    """P (all truth values of the sub-terms, z3): one step of the structural induction for the boolean skeleton - the JSON produced
+    by the REAL visit of a node, evaluated by the ES semantics of bool queries over the (stubbed) translations of its operands,
+    has the meaning of the node, provided each operand's translation has the meaning of the operand.  Nested fields change the
+    scope of evaluation and are not part of this lemma (bounded part C05-B)."""
+    cases = []
+    shapes = {
+        "AndOperation": [("leaf", "leaf"), ("leaf", "leaf", "leaf"), ("leaf", "and"), ("and", "leaf"), ("leaf", "not"), ("plus", "prohibit"), ("group", "leaf")],
+        "OrOperation": [("leaf", "leaf"), ("leaf", "leaf", "leaf"), ("leaf", "or"), ("or", "leaf"), ("leaf", "not"), ("plus", "prohibit"), ("group", "leaf")],
+        "UnknownOperation": [("leaf", "leaf"), ("leaf", "leaf", "leaf"), ("leaf", "not"), ("plus", "prohibit"), ("plus", "leaf"), ("group", "leaf"), ("leaf", "and"), ("or", "leaf")],
+        "BoolOperation": [("leaf", "leaf"), ("plus", "leaf"), ("plus", "prohibit", "leaf"), ("prohibit", "leaf"), ("not", "leaf"), ("plus", "plus"), ("prohibit",),
+                          ("plus",), ("leaf",), ("leaf", "or"), ("leaf", "and"), ("group", "plus")],
+        "Plus": [("leaf",), ("group",), ("or",), ("not",)], "Not": [("leaf",), ("group",), ("not",), ("and",)], "Prohibit": [("leaf",), ("prohibit",), ("or",)],
+    }
+    for default in ("should", "must"):
+        for cname, variants in shapes.items():
+            for kinds in variants:
+                def run(cx, default=default, cname=cname, kinds=kinds):
+                    cls = getattr(T, cname)
+                    b = EV.ElasticsearchQueryBuilder(default_operator=default)
+                    ops, stubs, meanings = [], {}, []
+                    for i, k in enumerate(kinds):
+                        n, st, mv = _operand(k, i, cx, cls)
+                        ops.append(n)
+                        stubs.update(st)
+                        meanings.append((k, mv))
+                    node = cls(*ops)
+                    visited = []
+
+                    def stub_visit_iter(self_or_node, *a):
+                        # both call shapes: TreeVisitor.visit_iter(node, ctx) via super(), and self.visit_iter(node, ctx)
+                        child = self_or_node
+                        if id(child) not in stubs:
+                            raise EngineUnsupported("visit of a node that is not an arranged operand")
+                        visited.append(child)
+                        return iter([stubs[id(child)]])
+                    real_super = EV.TreeVisitor.visit_iter
+                    EV.TreeVisitor.visit_iter = lambda self, n, c: stub_visit_iter(n, c)
+                    b.visit_iter = lambda n, c: stub_visit_iter(n, c)
+                    meth = b._get_method(node)
+                    try:
+                        try:
+                            out = list(meth(node, {}))
+                        except X.OrAndAndOnSameLevel:
+                            out = "mix"
+                    finally:
+                        EV.TreeVisitor.visit_iter = real_super
+                    key = "C05-S/%s/%s/%s" % (default, cname, "+".join(kinds))
+                    andlike = cname == "AndOperation" or (cname == "UnknownOperation" and default == "must")
+                    orlike = cname == "OrOperation" or (cname == "UnknownOperation" and default == "should")
+                    clash = (andlike and any(k == "or" or (k == "unknown" and default == "should") for k in kinds)) or \
+                            (orlike and any(k == "and" for k in kinds))
+                    if cname == "UnknownOperation":
+                        clash = (default == "must" and "or" in kinds) or (default == "should" and "and" in kinds)
+                    if out == "mix" or clash:
+                        return [(key + "/refused-exactly-when-an-unparenthesised-AND-OR-mix", (out == "mix") == bool(clash))]
+                    vals = [mv for _, mv in meanings]
+                    if andlike:
+                        spec = z3.And(vals)
+                    elif orlike:
+                        spec = z3.Or(vals)
+                    elif cname == "Plus":
+                        spec = vals[0]
+                    elif cname in ("Not", "Prohibit"):
+                        spec = z3.Not(vals[0])
+                    else:   # BoolOperation, Lucene's boolean query: + required, - / NOT prohibited, the rest optional but one of
+                        #     them needed when nothing is required
+                        req = [mv for k, mv in meanings if k == "plus"]
+                        neg = [mv for k, mv in meanings if k in ("prohibit", "not")]      # already negated meanings
+                        opt = [mv for k, mv in meanings if k not in ("plus", "prohibit", "not")]
+                        parts = req + neg
+                        if opt and not req:
+                            parts.append(z3.Or(opt))
+                        spec = z3.And(parts) if parts else z3.BoolVal(True)
+                    if len(out) != 1:
+                        return [(key + "/one-clause", False)]
+                    got = es_meaning(out[0].json)
+                    cx.notes["replay_info"] = {"class": cname, "operands": list(kinds), "default": default}
+                    return [(key + "/meaning-of-the-generated-bool-clause-is-the-meaning-of-the-node", got == spec),
+                            (key + "/every-operand-translated-exactly-once", len(visited) == len(stubs) and len({id(v) for v in visited}) == len(stubs))]
+                cases.append(core.Case("C05-S/%s/%s/%s" % (default, cname, "+".join(kinds)), run,
+                                       functions=["luqum.elasticsearch.visitor.ElasticsearchQueryBuilder._binary_operation",
+                                                  "luqum.elasticsearch.visitor.ElasticsearchQueryBuilder.visit_not",
+                                                  "luqum.elasticsearch.visitor.ElasticsearchQueryBuilder.visit_bool_operation",
+                                                  "luqum.elasticsearch.visitor.ElasticsearchQueryBuilder.visit_unknown_operation",
+                                                  "luqum.elasticsearch.tree.EOperation.json", "luqum.elasticsearch.tree.EBoolOperation.json"]))
+    return cases
